@@ -612,7 +612,7 @@ macro_rules! flag_case {
 flag_case!(flags_width, (f_10, "{:10}"), (f_left10, "{:<10}"), (f_right12, "{:>12}"), (f_center7, "{:^7}"));
 flag_case!(flags_fill, (f_starcenter7, "{:*^7}"), (f_dashleft11, "{:-<11}"), (f_0right8, "{:0>8}"), (f_08, "{:08}"));
 flag_case!(flags_precision, (f_p2, "{:.2}"), (f_p0, "{:.0}"), (f_10p3, "{:10.3}"), (f_right5p1, "{:>5.1}"));
-flag_case!(flags_alternate, (f_alt10, "{:#10}"), (f_altp1, "{:#.1}"), (f_rightalt12p3, "{:>#12.3}"), (f_altleft2, "{:#<2}"));
+flag_case!(flags_alternate, (f_alt10, "{:#10}"), (f_altp1, "{:#.1}"), (f_rightalt12p3, "{:>#12.3}"), (f_leftalt2, "{:<#2}"));
 flag_case!(flags_alternate2, (f_starcenteralt9, "{:*^#9}"), (f_altp0, "{:#.0}"), (f_alt12, "{:#12}"), (f_plusalt1, "{:+#1}"));
 flag_case!(flags_misc, (f_plus, "{:+}"), (f_1, "{:1}"), (f_9, "{:9}"), (f_left1p12, "{:<1.12}"));
 
